@@ -98,6 +98,9 @@ Definition probe_ok (s : state) (prev : list (list Z)) (U : list addr) (D : list
 Inductive case :=
 | CHist (t0 : Z) (U : list addr) (D : list denom) (fund : list (addr * denom * Z))
         (obs0 : list (list Z)) (steps : list step_rec)
+| CBulk (t0 fund : Z) (K : list key) (segs : list (list xop * list Z * list Z))
+        (* a campaign of > 100 pending licences: per segment the operations, their outcomes and
+           [number of licences; their sum; module balance; client records among K] afterwards *)
 | CAddMonths (t k got : Z)                (* time.Unix(t,0).UTC().AddDate(0,k,0).Unix() *)
 | CVested (st en orig t got : Z).         (* ContinuousVestingAccount.GetVestedCoins *)
 
@@ -112,10 +115,25 @@ Fixpoint replay (s : state) (prev : list (list Z)) (U : list addr) (D : list den
     && replay s' cur U D r
   end.
 
+Definition bulk_summary (s : state) (K : list key) : list Z :=
+  [Z.of_nat (length (lics s)); lic_sum bond (lics s); bal s escrow bond;
+   Z.of_nat (length (filter (fun k => match clients s k with Some _ => true | None => false end) K))].
+
+Fixpoint bulk_replay (s : state) (K : list key) (segs : list (list xop * list Z * list Z)) : bool :=
+  match segs with
+  | [] => true
+  | (ops, outs, sm) :: r =>
+    let s' := xrun s ops in
+    list_eqb Z.eqb (map (fun p => out_code (snd p)) (xtrace s ops)) outs
+    && list_eqb Z.eqb (bulk_summary s' K) sm
+    && bulk_replay s' K r
+  end.
+
 Definition check (c : case) : bool :=
   match c with
   | CHist t0 U D fund obs0 steps =>
       obs_eqb (observe (mk_init t0 fund) U D) obs0 && replay (mk_init t0 fund) obs0 U D steps
+  | CBulk t0 fund K segs => bulk_replay (mk_init t0 [(1, bond, fund)]) K segs
   | CAddMonths t k got => add_months t k =? got
   | CVested st en orig t got => vested st en orig t =? got
   end.
